@@ -37,6 +37,9 @@ def make_text(seed):
     knobs = gen.Knobs(items=r.choice([2, 3, 4]), members=r.choice([3, 5]), ns_depth=r.choice([1, 2]))
     g = gen.WildGen(seed, knobs, typedefs=True, typedef_same_ns=True, param_use=0.3, this_use=0.05, special_names=0.1)
     text = render.render(g.module())
+    if r.random() < 0.3:
+        # a non-ASCII character in a default value (files are UTF-8 whatever the locale says)
+        text += 'void unicode%d(string s = "caf\u00e9 \u6f22");\n' % (seed % 71)
     if r.random() < 0.6:
         # classes marked for serialization (state that the wrapper keeps while wrapping a file)
         text += 'namespace ser%d {\n  class Keep%d { Keep%d(); void serialize(); };\n  template<T = {int, double}> class Tmpl%d { void serializable(); T get() const; };\n}\n' % (
@@ -101,7 +104,7 @@ def check_input(seed, tier, acc, nvar):
         variations = []
         for hs in r.sample(HASHSEEDS, min(len(HASHSEEDS), nvar)):
             variations.append({'PYTHONHASHSEED': hs, 'LC_ALL': r.choice(LOCALES), 'cwd': r.choice(['abs', 'rel']),
-                               'populated': r.random() < 0.3})
+                               'populated': r.random() < 0.3, 'force_ascii': r.random() < 0.25})
         for vi, v in enumerate(variations):
             for kind in ('pybind', 'matlab'):
                 wd = os.path.join(root, 'v%d_%s' % (vi, kind))
@@ -109,6 +112,10 @@ def check_input(seed, tier, acc, nvar):
                 out = os.path.join(wd, 'out.cpp' if kind == 'pybind' else 'toolbox')
                 env = dict(os.environ)
                 env.update({'PYTHONPATH': REPO, 'PYTHONHASHSEED': v['PYTHONHASHSEED'], 'LC_ALL': v['LC_ALL'], 'LANG': v['LC_ALL']})
+                if v.get('force_ascii'):
+                    # no locale coercion, no UTF-8 mode: the locale encoding really is ASCII (D24, repaired)
+                    env.update({'LC_ALL': 'C', 'LANG': 'C', 'PYTHONCOERCECLOCALE': '0', 'PYTHONUTF8': '0'})
+                    acc.count('var:forced_ascii_locale')
                 if v['cwd'] == 'rel':
                     cwd = wd
                     cmd = script_cmd(kind, os.path.relpath(src, wd), os.path.relpath(out, wd), os.path.relpath(tpl, wd))
@@ -141,18 +148,29 @@ def check_input(seed, tier, acc, nvar):
                     vs.append({'what': '%s run created files outside the requested output' % kind, 'files': extra})
         # ---- wrapper reuse: history of wrap_file calls on one PybindWrapper
         texts = [make_text(seed + 1000 * k) for k in range(r.choice([2, 3, 5]))] + [text]
+        xml = ''
+        if r.random() < 0.5:
+            # Doxygen XML with two equal-named overloads: the docstring parser keeps per-overload state
+            xml = os.path.join(root, 'xml')
+            os.makedirs(xml)
+            open(os.path.join(xml, 'index.xml'), 'w').write('<?xml version="1.0"?><doxygenindex><compound refid="classDocA" kind="class"><name>DocA</name></compound></doxygenindex>')
+            member = '<memberdef kind="function" id="a%d"><name>f</name><argsstring>(x)</argsstring><param><declname>x</declname></param><briefdescription><para>doc %d</para></briefdescription><detaileddescription/></memberdef>'
+            open(os.path.join(xml, 'classDocA.xml'), 'w').write('<?xml version="1.0"?><doxygen><compounddef id="classDocA" kind="class"><sectiondef kind="public-func">' + member % (1, 1) + member % (2, 2) + '</sectiondef></compounddef></doxygen>')
+            doc_text = 'class DocA { void f(int x); void f(double x); };\n'
+            texts = [doc_text] + texts + [doc_text]
+            acc.count('var:reused_wrapper_with_xml')
         shared = PybindWrapper(module_name='modx', top_module_namespaces=[''], ignore_classes=[],
-                               module_template=tool.TPL, use_boost_serialization=r.random() < 0.5)
+                               module_template=tool.TPL, use_boost_serialization=r.random() < 0.5, xml_source=xml)
         ser = shared.use_boost_serialization
         for ti, t in enumerate(texts):
-            a = tool.outcome(tool.pybind_text, t, ('',), (), ser, 'modx', tool.TPL, '', None, shared)
-            b = tool.outcome(tool.pybind_text, t, ('',), (), ser, 'modx')
+            a = tool.outcome(tool.pybind_text, t, ('',), (), ser, 'modx', tool.TPL, xml, None, shared)
+            b = tool.outcome(tool.pybind_text, t, ('',), (), ser, 'modx', tool.TPL, xml)
             # reference from a fresh process: state kept in the module / class (not the object) is visible only there
             tp = os.path.join(root, 'hist%d.i' % ti)
             open(tp, 'w').write(t)
             code = ('import sys, hashlib; sys.path.insert(0, %r); sys.path.insert(0, %r); from vlib import tool; '
-                    'r = tool.outcome(tool.pybind_text, open(%r).read(), ("",), (), %r, "modx"); '
-                    'print("REF", r[0], hashlib.sha256(r[1].encode()).hexdigest())' % (VERIF, REPO, tp, ser))
+                    'r = tool.outcome(tool.pybind_text, open(%r).read(), ("",), (), %r, "modx", tool.TPL, %r); '
+                    'print("REF", r[0], hashlib.sha256(r[1].encode()).hexdigest())' % (VERIF, REPO, tp, ser, xml))
             pr = subprocess.run([sys.executable, '-c', code], stdout=subprocess.PIPE, stderr=subprocess.PIPE, timeout=600,
                                 env=dict(os.environ, PYTHONPATH=REPO))
             ref = pr.stdout.decode().strip().split('\n')[-1].split(' ')
